@@ -434,10 +434,11 @@ def getbins(bins, mx, mn, right=True, check_bounds=False):
         bins = int(bins[0])
         bb = np.linspace(mn, mx, bins + 1)
         p = 0.001 * (mx - mn)
+        # (make sure the end actually moves when `p` is below round-off)
         if right:
-            bb[0] -= p
+            bb[0] = min(bb[0] - p, np.nextafter(bb[0], -np.inf))
         else:
-            bb[-1] += p
+            bb[-1] = max(bb[-1] + p, np.nextafter(bb[-1], np.inf))
         out_of_bounds = False
     elif bins.ndim == 1:
         if np.any(np.diff(bins) <= 0):
